@@ -42,8 +42,12 @@ def extract_status_functions() -> dict[str, Any]:
     fn = next(n for n in tree.body if isinstance(n, ast.FunctionDef) and n.name == "main")
     start = end = None
     for i, st in enumerate(fn.body):
-        if start is None and isinstance(st, ast.Assign) and isinstance(st.targets[0], ast.Name) and st.targets[0].id == "code":
+        d = ast.dump(st)
+        if start is None and "count_stats" in d:
             start = i
+            prev = fn.body[i - 1] if i else None
+            if isinstance(prev, ast.Assign) and isinstance(prev.targets[0], ast.Name) and prev.targets[0].id == "code":
+                start = i - 1
         if start is not None and isinstance(st, ast.If) and "error_summary" in ast.dump(st.test):
             end = i
             break
@@ -151,8 +155,19 @@ def k2_exit_status(rep: Report, tier: str) -> None:
                     msg = bstr.bstr(c, f"msg{i}", msglen, minlen=1)
                     line, col = 7, 3
                     tuples.append((file, line, col, line, col, "error" if is_err else "note", msg, None))
-                lines = fmt(_FmtSelf(c, n <= 1), tuples, None)
+                json_mode = bool(c.bool("output_json"))
+                if json_mode:
+                    # --output json: the real create_errors + JSONFormatter on concrete texts
+                    from mypy.error_formatter import JSONFormatter
+                    from mypy.errors import create_errors
+
+                    conc = [(f, l, cl, el, ec, sev, "msg", code) for (f, l, cl, el, ec, sev, m_, code) in tuples]
+                    lines = [JSONFormatter().report_error(e) for e in create_errors(conc)]
+                else:
+                    lines = fmt(_FmtSelf(c, n <= 1), tuples, None)
                 blockers = bool(c.bool("blockers")) if "blockers" in inspect.signature(status_fn).parameters else False
+                if blockers and not any_err:
+                    raise PathAbort()  # a blocking error is an error-severity message
                 st = status_fn(lines, blockers) if "blockers" in inspect.signature(status_fn).parameters else status_fn(lines)
                 if symx.is_sym(st):
                     raise Unsupported("symbolic status")
@@ -165,7 +180,7 @@ def k2_exit_status(rep: Report, tier: str) -> None:
                     reached["nonzero_error" if any_err else "zero_no_error"] += 1
                     return
                 c.stats["refuted"] += 1
-                key = f"{name}: status {st} with {'an' if any_err else 'no'} error-severity message ({n} messages)"
+                key = f"{name}{' (--output json)' if json_mode else ''}: status {st} with {'an' if any_err else 'no'} error-severity message ({n} messages)"
                 if key not in found:
                     found[key] = (name, n, c.path_model(), st, any_err)
 
@@ -202,19 +217,22 @@ def replay_status(name: str, n: int, m: dict[str, Any], st: int, any_err: bool):
         with open(os.path.join(d, "prog.py"), "w") as f:
             f.write(src)
         with open(os.path.join(d, "replay.sh"), "w") as f:
-            f.write('#!/bin/bash\n# exit status must be non-zero iff an error line is printed\ncd "$(dirname "$0")"\n/verif/.venv/bin/python -m mypy --no-incremental --cache-dir=/dev/null prog.py; echo "exit status: $?"\n')
+            f.write('#!/bin/bash\n# exit status must be non-zero iff an error line is printed\ncd "$(dirname "$0")"\n/verif/.venv/bin/python -m mypy --no-incremental --cache-dir=/dev/null ' + ("--output json " if m.get("output_json") else "") + 'prog.py; echo "exit status: $?"\n')
         work = scratch("c13-")
         try:
             shutil.copy(os.path.join(d, "prog.py"), work)
             env = dict(os.environ)
             env.pop("PYTHONPATH", None)
-            p = subprocess.run([sys.executable, "-m", "mypy", "--no-incremental", "--cache-dir=/dev/null", "prog.py"], cwd=work, capture_output=True, text=True, timeout=120, env=env)
+            jflag = ["--output", "json"] if m.get("output_json") else []
+            p = subprocess.run([sys.executable, "-m", "mypy", "--no-incremental", "--cache-dir=/dev/null"] + jflag + ["prog.py"], cwd=work, capture_output=True, text=True, timeout=120, env=env)
             out, rc = p.stdout, p.returncode
             if name.startswith("dmypy_server"):
                 # same program through the daemon's check path (in-process Server.check)
                 drv = (
                     "import sys, os\nfrom mypy.dmypy_server import Server\nfrom mypy.options import Options\nfrom mypy.modulefinder import BuildSource\n"
                     "o = Options(); o.incremental = False; o.cache_dir = os.devnull; o.fine_grained_incremental = True; o.use_fine_grained_cache = False\n"
+                    + ("o.output = 'json'\n" if m.get("output_json") else "")
+                    +
                     "s = Server(o, 'st.json')\nr = s.check([BuildSource('prog.py', 'prog', None)], False, False, 80)\n"
                     "print(r['out']); print('STATUS', r['status'])\n"
                 )
@@ -233,7 +251,7 @@ def replay_status(name: str, n: int, m: dict[str, Any], st: int, any_err: bool):
             shutil.rmtree(work, ignore_errors=True)
         import re
 
-        has_err = any(re.match(r"^prog\.py:\d+: error:", ln) for ln in out.splitlines())
+        has_err = any(re.match(r"^prog\.py:\d+: error:", ln) or (ln.startswith("{") and '"severity": "error"' in ln) for ln in out.splitlines())
         bad = (rc == 0) == has_err
         return bad, f"exit status {rc}, error line printed: {has_err}; output: {out[-300:]}"
 
@@ -244,7 +262,7 @@ def main(args: Any) -> int:
     rep = Report(PID, args.tier, "symbolic execution (symx/z3 strings) of the real formatter + classifier + status expressions; ignore semantics by symbolic report streams")
     only = set(args.only.split(",")) if args.only else None
     rep.bounds += [
-        "K2: 0..2 (quick) / 0..3 (thorough) diagnostics, message text any printable-ASCII string of <= 10/14 chars, file names over [a-z./] <= 6 chars or absent, line/column in -1..99, show_column_numbers/show_error_end symbolic, pretty off",
+        "K2: text and --output json rendering; 0..2 (quick) / 0..3 (thorough) diagnostics, message text any printable-ASCII string of <= 10/14 chars, file names over [a-z./] <= 6 chars or absent, line/column in -1..99, show_column_numbers/show_error_end symbolic, pretty off",
     ]
     rep.assumptions += [
         "file names contain no ':' (a path containing ': note:' or ': error:' defeats any text-based classifier; stated, not checked)",
